@@ -34,18 +34,20 @@ theorem foldl_sublist (g : St → Key → St) (hg : ∀ s c, (g s c).objs.Sublis
   | nil => intro st; exact List.Sublist.refl _
   | cons c cs ih => intro st; exact (ih (g st c)).trans (hg st c)
 
-theorem deleteHelper_sublist : ∀ (f : Nat) (st : St) (o : Obj) (c : Bool),
-    (deleteHelper f st o c).1.objs.Sublist st.objs := by
+theorem deleteHelper_sublist : ∀ (f : Nat) (st : St) (o : Obj) (c : Bool) (busy : List Key),
+    (deleteHelper f st o c busy).1.objs.Sublist st.objs := by
   intro f
   induction f with
-  | zero => intro st o c; exact removeObj_objs_sublist st o
+  | zero => intro st o c busy; exact removeObj_objs_sublist st o
   | succ f ih =>
-    intro st o c
+    intro st o c busy
     simp only [deleteHelper]
     split
     · exact List.Sublist.refl _
-    · refine (removeObj_objs_sublist _ o).trans ?_
-      exact foldl_sublist _ (fun s k => deleteChild_sublist _ (fun s co => ih s co c) s k) _ st
+    · split
+      · exact List.Sublist.refl _
+      · refine (removeObj_objs_sublist _ o).trans ?_
+        exact foldl_sublist _ (fun s k => deleteChild_sublist _ (fun s co => ih s co c _) s k) _ st
 
 theorem deleteObject_sublist (st : St) (k : Key) (c : Bool) :
     (deleteObject st k c).1.objs.Sublist st.objs := by
@@ -54,9 +56,7 @@ theorem deleteObject_sublist (st : St) (k : Key) (c : Bool) :
   · exact List.Sublist.refl _
   · split
     · exact List.Sublist.refl _
-    · split
-      · exact List.Sublist.refl _
-      · exact deleteHelper_sublist _ _ _ _
+    · exact deleteHelper_sublist _ _ _ _ _
 
 theorem has_false_iff (st : St) (k : Key) : st.has k = false ↔ k ∉ st.keys := by
   simp [St.has, St.keys]
